@@ -149,6 +149,9 @@ def run(repo, R):
         R.check(p == "imag", "HERM", g.site, f"phase class {p}",
                 f"{g.cls.name} must be (imaginary unit) x (real integrals); its return expression is classified {p}", where=g.where(), expected="imag", found=p)
         uf = unit_factor(g)
+        if uf == "conditional":
+            R.ok("UNIT", g.site, "prefactor selected per path: decided on every path of the kernel below", nontrivial=False)
+            continue
         R.check(uf is not None and abs(uf - (-1j)) < 1e-15, "UNIT", g.site, f"prefactor {uf}",
                 f"the operator is -i d/dx (resp. -i r x grad): the constant prefactor must be -1j, found {uf}", where=g.where(), expected="-1j", found=str(uf))
     for method, (kinds, mf) in mirror_kinds(repo).items():
